@@ -97,9 +97,6 @@ theorem hexVal_isSome_iff (c : Char) : (hexVal c).isSome = Spec.isHex c := by
 
 theorem hexVal_hyphen : hexVal '-' = none := by decide
 
-/-- value of the digits of a string -/
-def digitVals (s : List Char) : List Nat := (Spec.digitsOf s).filterMap hexVal
-
 /-- hyphens only where an even number of digits precedes them -/
 def HyphensOk (n : Nat) (s : List Char) : Prop :=
   ∀ pre post, s = pre ++ '-' :: post → (n + (Spec.digitsOf pre).length) % 2 = 0
